@@ -618,7 +618,8 @@ def r20(ctx):
         for i in fn.all('IfStmt'):
             if i not in inside:
                 continue
-            ck = fn.key(fn.nodes[i]['cond'])
+            ck = fn.key(fn.nodes[i]['cond']) + ' ' + ' '.join(fn.xkey(x) for x in fn.walk(fn.nodes[i]['cond'])
+                                                              if fn.nodes[x]['k'] == 'DeclRefExpr' and fn.nodes[x].get('rk') == 'local')
             if '(%s == #4)' % ln not in ck or not re.search(r'\((\w+) == #2\)', ck):
                 continue
             th = fn.nodes[i].get('then')
